@@ -51,6 +51,9 @@ var simpleActs = map[string]string{
 	"p.exit = nil":                     ".clearExit",
 }
 
+// statements that belong to starting the timer (captured generation): no action of their own
+var timerPrelude = map[string]bool{"gen := p.escGen": true}
+
 type gctx struct {
 	c *ex.Ctx
 }
@@ -120,6 +123,10 @@ func (g *gctx) stmts(list []ast.Stmt, wantReturn bool) (acts []string, next stri
 		src := norm(g.c.Src(s))
 		if a, found := simpleActs[src]; found {
 			acts = append(acts, a)
+			continue
+		}
+		if timerPrelude[src] {
+			sawGenCapture = true
 			continue
 		}
 		switch x := s.(type) {
@@ -195,6 +202,7 @@ func (g *gctx) stmts(list []ast.Stmt, wantReturn bool) (acts []string, next stri
 
 var timerDelay string
 var timerBody []string
+var sawGenCapture bool
 
 // timer checks the shape of `p.escTimeout = time.AfterFunc(D*time.Millisecond, func() { … })`.
 func (g *gctx) timer(as *ast.AssignStmt) bool {
@@ -221,7 +229,11 @@ func (g *gctx) timer(as *ast.AssignStmt) bool {
 	}
 	timerBody = nil
 	for _, s := range fl.Body.List {
-		timerBody = append(timerBody, norm(g.c.Src(s)))
+		t := norm(g.c.Src(s))
+		if t == "verifEscTimer(0)" || t == "defer verifEscTimer(1)" {
+			continue // verification yield points (no-ops without the build tag)
+		}
+		timerBody = append(timerBody, t)
 	}
 	return true
 }
@@ -392,17 +404,47 @@ func gen(c *ex.Ctx) {
 	}
 	wantBody := []string{"p.emit(C0(0x1B))", "p.mu.Lock()", "p.state = ground", "p.mu.Unlock()"}
 	wantBody2 := []string{"p.emit(C0(0x1B))", "p.mu.Lock()", "p.state = ground", "p.ignoreST = false", "p.mu.Unlock()"}
-	clears := ""
+	wantBody3 := []string{"p.mu.Lock()", "defer p.mu.Unlock()", "if p.escGen != gen { return }", "p.emit(C0(0x1B))", "p.state = ground", "p.ignoreST = false"}
+	clears, guarded := "", "false"
 	switch strings.Join(timerBody, "|") {
 	case strings.Join(wantBody, "|"):
 		clears = "false"
 	case strings.Join(wantBody2, "|"):
 		clears = "true"
+	case strings.Join(wantBody3, "|"):
+		clears, guarded = "true", "true"
 	default:
-		c.Fail("anywhere: timer callback body is %q, the model knows %q (optionally with `p.ignoreST = false` after the state reset)", timerBody, wantBody)
+		c.Fail("anywhere: timer callback body is %q; the model knows %q, %q and %q", timerBody, wantBody, wantBody2, wantBody3)
 		return
 	}
-	fmt.Fprintf(&sb, "/-- delay of the Escape-key timer in ms; its callback is `emit(C0 0x1B); lock; state = ground; [ignoreST = false;] unlock` (shape checked by the extractor) -/\ndef escDelayMs : Nat := %s\n/-- the timer callback also resets ignoreST -/\ndef timerClearsIgnoreST : Bool := %s\n\n", timerDelay, clears)
+	if (guarded == "true") != sawGenCapture {
+		c.Fail("anywhere: `gen := p.escGen` and the generation check in the timer callback must come together")
+		return
+	}
+	// run(): the generation is bumped under the mutex before every transition and before EOF
+	rf := ex.FindFunc(f, "Parser", "run")
+	if rf == nil {
+		c.Fail("Parser.run not found")
+		return
+	}
+	runSrc := norm(c.Src(rf.Body))
+	bumpLoop := strings.Contains(runSrc, "r := p.readRune() p.mu.Lock() p.escGen++ p.state = anywhere(r, p)")
+	bumpEnd := strings.Contains(runSrc, "p.mu.Lock() p.escGen++ p.mu.Unlock() p.emit(EOF{}) close(p.sequences)")
+	plainLoop := strings.Contains(runSrc, "r := p.readRune() p.mu.Lock() p.state = anywhere(r, p)")
+	plainEnd := strings.Contains(runSrc, "p.emit(EOF{}) close(p.sequences) p.closed <- true")
+	if !plainEnd || !(bumpLoop || plainLoop) {
+		c.Fail("Parser.run: loop shape not recognised")
+		return
+	}
+	if guarded == "true" && !(bumpLoop && bumpEnd) {
+		c.Fail("Parser.run: guarded timer callback but escGen is not bumped under the mutex before each transition and before EOF")
+		return
+	}
+	if guarded == "false" && (bumpLoop || bumpEnd || strings.Contains(runSrc, "escGen")) {
+		c.Fail("Parser.run: escGen used but the timer callback does not check it")
+		return
+	}
+	fmt.Fprintf(&sb, "/-- delay of the Escape-key timer in ms; its callback is `emit(C0 0x1B); lock; state = ground; [ignoreST = false;] unlock` (shape checked by the extractor) -/\ndef escDelayMs : Nat := %s\n/-- the timer callback also resets ignoreST -/\ndef timerClearsIgnoreST : Bool := %s\n/-- the timer callback runs under the mutex and returns at once if the generation moved on (run() bumps it under the mutex before every transition and before EOF) -/\ndef timerGuarded : Bool := %s\n\n", timerDelay, clears, guarded)
 
 	// facts about csiDispatch: separators, base, digit offset
 	cd := ex.FindFunc(f, "Parser", "csiDispatch")
